@@ -63,6 +63,15 @@ pub fn programs() -> Vec<(&'static str, Module, bool)> {
         // Abort ends the run with Ok from inside nested calls and scopes
         ("abort-in-nested-call", module(vec![("main", func(&[], vec![sg("before", int(1)), sg("r", call("f", vec![int(1)])), sg("never", int(1))])), ("f", func(&["x"], vec![sv("l", s("local of f")), C::Return(b(call("g", vec![rv("x")])))])), ("g", func(&["y"], vec![sv("m", C::CreateTable), C::Repeat { n: b(int(3)), i: Some("i".into()), body: b(C::IfTrue(b(rv("i")), b(C::Abort))) }, C::Return(b(int(1)))]))]), true),
         ("abort-in-closure", module(vec![("main", func(&[], vec![sv("x", int(5)), sv("c", C::Closure(vec![], vec![sv("x", add(rv("x"), int(1))), C::Abort])), sg("before", rv("x")), sg("r", C::DynCall(b(rv("c")), vec![])), sg("never", int(1))]))]), true),
+        // sorting by a key function that returns one shared object for every row (the native guards it per row)
+        (
+            "sort-by-shared-key",
+            module(vec![
+                ("main", func(&[], vec![sg("shared", s(&lit.repeat(6))), sg("t", C::CreateTable), C::Append(b(int(2)), b(rv("t"))), C::Append(b(int(1)), b(rv("t"))), C::Append(b(int(3)), b(rv("t"))), sg("r", call("std.sorted_by_key", vec![C::Function("kf".into()), rv("t")])), sg("shared", int(0))])),
+                ("kf", func(&["key", "value"], vec![C::Return(b(rv("shared")))])),
+            ]),
+            true,
+        ),
         ("reads-global", module(vec![("main", func(&[], vec![sg("g", int(7)), sg("h", add(rv("g"), int(1)))]))]), true),
     ]
 }
@@ -296,6 +305,22 @@ fn repetition(i: usize, with_clear: bool, n: usize) -> Option<(String, String)> 
     None
 }
 
+/// (allocated, next collection, limit) of a VM whose limit was set through `set_memory_limit`, of
+/// one created with that limit, and of both after a clear
+fn limit_config(limit: usize) -> Option<(String, String)> {
+    let created = cao_lang::vm::runtime::RuntimeData::new(limit, 256, 256).ok()?;
+    let want = verif::counters(&created);
+    let mut vm: Vm<()> = Vm::new(()).unwrap();
+    vm.runtime_data.set_memory_limit(limit);
+    let set = verif::counters(&vm.runtime_data);
+    vm.clear();
+    let set_cleared = verif::counters(&vm.runtime_data);
+    if set != want || set_cleared != want {
+        return Some(("limit-config/differs".into(), format!("limit {limit}: (allocated, next collection, limit) is {want:?} for a VM created with the limit, {set:?} after set_memory_limit, {set_cleared:?} after set_memory_limit and clear")));
+    }
+    None
+}
+
 impl Check for C17 {
     fn id(&self) -> &'static str {
         "C17"
@@ -317,6 +342,13 @@ impl Check for C17 {
     }
     fn run_unit(&self, tier: Tier, unit: u64, out: &mut ChunkResult) {
         if unit == 0 {
+            // the two ways to give a VM its memory limit agree with each other and with a clear
+            for limit in [0usize, 64, 4096, 32 * 1024, 64 * 1024, 400 * 1024, 1 << 20, 16 << 20] {
+                out.evaluations += 1;
+                if let Some((k, w)) = limit_config(limit) {
+                    out.violation(Violation::new("C17", k, w, json!({"kind": "limit-config", "limit": limit})));
+                }
+            }
             hist::bfs(&Sys, &cfg(tier.pick(4, 6), tier.pick(35, 600)), out);
             return;
         }
@@ -340,6 +372,9 @@ impl Check for C17 {
         }
     }
     fn replay(&self, case: &J) -> Option<Violation> {
+        if case["kind"].as_str() == Some("limit-config") {
+            return limit_config(case["limit"].as_u64()? as usize).map(|(k, w)| Violation::new("C17", k, w, case.clone()));
+        }
         if case["kind"].as_str() == Some("repetition") {
             let (i, wc, n) = (case["program"].as_u64()? as usize, case["with_clear"].as_bool()?, case["n"].as_u64()? as usize);
             return repetition(i, wc, n).map(|(k, w)| Violation::new("C17", k, w, case.clone()));
